@@ -10,6 +10,7 @@ from ..machine import norm, RAM, DISK
 
 class C01(E1):
     ID = "C01"
+    TECHNIQUE = ('deterministic simulation: seeded executor histories (passes, finalize style, driving pattern, planner knob) on a reference storage machine; per-event executability guards')
     EXPECTED_PROBES = ('second_pass_runs', 'mixed_deps_checkpoint', 'multistage_both_storages_runs', 'hrevolve_used_disk_runs', 'twolevel_partial_last_block_runs')
     RULE = ("one schedule per run (class variant, parameters, costs, true end "
             "N, passes, finalize style, driving style [next() calls or the "
@@ -36,6 +37,7 @@ class C01(E1):
 
 class C02(E1):
     ID = "C02"
+    TECHNIQUE = ('deterministic simulation: seeded executor histories incl. overrun next() calls; phase-grammar and coverage monitors on the reference machine; bounded-liveness step cap')
     EXPECTED_PROBES = ('second_pass_runs',)
     OVERRUN = 3
     RULE = ("as C01 plus next() three more times after the executor's last "
@@ -80,6 +82,7 @@ class C02(E1):
 
 class C03(E1):
     ID = "C03"
+    TECHNIQUE = ('deterministic simulation: seeded executor histories on a reference storage machine; per-event budget monitor')
     EXPECTED_PROBES = ('hrevolve_disk_reread', 'hrevolve_used_disk')
     RULE = ("as C01 with unit counts concentrated where budgets bind; after "
             "every event the number of checkpoints held in RAM / on DISK is "
@@ -108,6 +111,7 @@ class C03(E1):
 
 class C04(E1):
     ID = "C04"
+    TECHNIQUE = ('deterministic simulation: seeded multi-pass executor histories on a reference storage machine; store snapshots at EndForward/EndReverse compared')
     EXPECTED_PROBES = ('second_pass_runs', 'hrevolve_used_disk_runs')
     RULE = ("as C01; at every EndReverse the set of stored checkpoints is "
             "compared with the empty set (single-adjoint classes) or with the "
@@ -151,6 +155,7 @@ class C04(E1):
 
 class C08(E1):
     ID = "C08"
+    TECHNIQUE = ('deterministic simulation with observer injection: counters read after every event and at seeded instants, compared with the reference machine')
     EXPECTED_PROBES = ('second_pass_runs', 'obs_before_first_next')
     OBS_RATE = 0.25
     OBS_KINDS = ("n", "r", "max_n") * 3 + ("is_exhausted", "is_running",
@@ -190,6 +195,7 @@ class C08(E1):
 
 class C12(E1):
     ID = "C12"
+    TECHNIQUE = ('deterministic simulation: seeded executor histories on a reference storage machine; per-event WORK-discipline monitors')
     EXPECTED_PROBES = ('mixed_deps_checkpoint', 'hrevolve_used_disk_runs')
     RULE = ("as C01; after every event WORK is inspected: adjoint dependencies"
             " of at most one step (SingleMemory exempt), loads only into an "
@@ -302,6 +308,7 @@ def _perturb(a, lib):
 
 class C18(E1):
     ID = "C18"
+    TECHNIQUE = ('deterministic simulation: per-action monitors on every emitted action (incl. late-finalised histories and the tabulated planner) plus value-law checks on history pairs, perturbations and seeded constructed actions')
     EXPECTED_PROBES = ('c18_actions_examined', 'c18_constructed_actions')
     WORLD_KW = {"keep_raw": True}
     LATE_FIN = 0.3
